@@ -425,12 +425,13 @@ fn run_crash_with(b: &Behaviour, names: &Names, power: bool, max_points: usize, 
 }
 
 /// fault: learn the number of mutating calls from a clean run, then fail each one once.
-fn run_fault(b: &Behaviour, names: &Names, max_points: usize, rng: &mut Rng, out: &mut TraceOut, pend: &Pending) -> (u64, u64) {
+fn run_fault(b: &Behaviour, names: &Names, max_points: usize, only_op: Option<&str>, rng: &mut Rng, out: &mut TraceOut, pend: &Pending) -> (u64, u64) {
     let knobs = Knobs { concurrency: 1, cache: 4 };
-    // clean run to count the calls
+    // clean run to count the calls (and, for --only-op, to learn which calls an operation of that kind issues)
+    let mut eligible: Vec<bool> = vec![];
     let total = {
         shim::set_clock_skew(0);
-    let sc = Scratch::new("fs");
+        let sc = Scratch::new("fs");
         let dir = sc.path().to_path_buf();
         shim::start(&dir, false);
         shim::set_skip_fsync(true);
@@ -446,7 +447,13 @@ fn run_fault(b: &Behaviour, names: &Names, max_points: usize, rng: &mut Rng, out
             if clock_step(op) {
                 continue;
             }
+            let before = shim::mutating_seen() as usize;
             let _ = do_op(op, &mut h, &mut kv, &dir, &b.cfg, names);
+            let after = shim::mutating_seen() as usize;
+            eligible.resize(after, false);
+            for e in eligible.iter_mut().take(after).skip(before) {
+                *e = only_op.map(|o| o == op[0]).unwrap_or(true);
+            }
             if kv.is_none() {
                 break;
             }
@@ -458,12 +465,15 @@ fn run_fault(b: &Behaviour, names: &Names, max_points: usize, rng: &mut Rng, out
     };
     let mut nruns = 0u64;
     for j in 0..total {
+        if only_op.is_some() && !eligible.get(j).copied().unwrap_or(false) {
+            continue;
+        }
         if total > max_points && j >= 2 && rng.below(total as u64) >= max_points as u64 {
             continue;
         }
         for (errno, ename) in [(libc::ENOSPC, "ENOSPC"), (libc::EIO, "EIO")] {
             shim::set_clock_skew(0);
-    let sc = Scratch::new("fs");
+        let sc = Scratch::new("fs");
             let dir = sc.path().to_path_buf();
             shim::start(&dir, false);
             shim::set_skip_fsync(true);
@@ -567,6 +577,8 @@ fn main() {
     let mode = args[1].as_str();
     let seed: u64 = arg_val(&args, "--seed").and_then(|s| s.parse().ok()).unwrap_or(1);
     let max_points: usize = arg_val(&args, "--max-points").and_then(|s| s.parse().ok()).unwrap_or(1_000_000);
+    // fault mode: fail only the calls issued by operations of this kind (e.g. merge)
+    let only_op: Option<String> = arg_val(&args, "--only-op");
     let shard = arg_val(&args, "--shard").unwrap_or_else(|| "0/1".into());
     let (si, sn): (usize, usize) = {
         let mut it = shard.split('/');
@@ -618,7 +630,7 @@ fn main() {
         let (c, p) = match mode {
             "crash" => run_crash(b, &names, false, max_points, &mut rng, &mut out, &pend),
             "power" => run_crash(b, &names, true, max_points, &mut rng, &mut out, &pend),
-            "fault" => run_fault(b, &names, max_points, &mut rng, &mut out, &pend),
+            "fault" => run_fault(b, &names, max_points, only_op.as_deref(), &mut rng, &mut out, &pend),
             m => panic!("mode {m}"),
         };
         calls += c;
